@@ -10,6 +10,7 @@ CONSTANTS
   FixLsn = TRUE
   FixGcOrder = TRUE
   FixRedoUpd = TRUE
+  FixStamp = TRUE
   Torn = TRUE
 SPECIFICATION Spec
 INVARIANTS Recovered NoPanic PageBehindLog
